@@ -319,8 +319,17 @@ def m_char_classes(ex, a, m):
     return Bool({'is_alphabetic': ch.isalpha(), 'is_alphanumeric': ch.isalnum(), 'is_whitespace': ch.isspace()}[op])
 @model_rx(r'^<&?(std::string::String|str|&str)( as|&) PartialEq.*>::(eq|ne)$|^<&?&?(std::string::String|str) as PartialEq<.*>>::(eq|ne)$|^<&?&?(std::string::String|str) as PartialEq>::(eq|ne)$')
 def m_str_eq(ex, a, m):
-    x, y = conc(ex, as_str(a[0])), conc(ex, as_str(a[1]))
-    r = x == y
+    sx, sy = as_str(a[0]), as_str(a[1])
+    x, y = sx.concrete(), sy.concrete()
+    if x is not None and y is not None: r = x == y
+    elif len(sx.chars) != len(sy.chars): r = False          # one Unicode scalar value per list element on both sides
+    else:
+        conds = []; r = True
+        for p_, q_ in zip(sx.chars, sy.chars):
+            if isinstance(p_, str) and isinstance(q_, str):
+                if p_ != q_: r = False; break
+            else: conds.append(char_val(p_).bv == char_val(q_).bv)
+        if r and conds: r = ex.branch_bool(Bool(z3.And(*conds)))
     return Bool(r if m.group(0).endswith('eq') else not r)
 @model('<std::string::String as Ord>::cmp', '<str as Ord>::cmp')
 def m_str_cmp(ex, a):
